@@ -270,7 +270,6 @@ def check(run):
     run.assumptions += [
         "ELF cores have no overlapping LOAD segments (DESIGN.md section 8 (ii))",
         "split-file windows are non-empty and hold a dumped page (section 8 (iii); empty windows are defect #5, C07)",
-        "LKCD pages whose compressed form is larger than a page are not generated (defect #9, C03)",
         "files are not truncated below their last page (reads beyond the page containing EOF depend on the mmap "
         "policy by design of KDUMP_MMAP_ALWAYS; stated separately as C04_fcache_beyond_eof)"]
     run.check_coq()
